@@ -304,6 +304,11 @@ def gen_program_x86(rng, feat, bits=32):
                 out.append(alu(regs))
             elif r < 0.62 and "mem" in feat:
                 out.extend(mem(regs).split("\n"))
+            elif r < 0.64 and "stack" in feat and "multi" in feat and bits == 32:
+                # one instruction, eight stores / eight loads
+                out.append("PUSHAD")
+                out.extend(body(rng.randint(0, 2), regs, depth + 1) if depth < 2 else [])
+                out.append("POPAD")
             elif r < 0.70 and "stack" in feat:
                 a, b = rng.choice(regs), rng.choice(regs)
                 out.append("PUSH %s" % a)
@@ -578,7 +583,16 @@ class TestRun(object):
             self.log.add(" act stop")
             return True
         elif k in ("bp_add", "bp_set"):
-            addr = self.instr_addrs[a[2] % len(self.instr_addrs)]
+            if isinstance(a[2], list):
+                # a branch target / loop head / subroutine entry: an address that is typically both the
+                # start of one translated block and an inner instruction of another
+                targets = sorted(v for n, v in self.prog.labels.items() if n not in ("main", "end"))
+                if not targets:
+                    return False
+                addr = targets[a[2][1] % len(targets)]
+                self.probe("bp_on_branch_target")
+            else:
+                addr = self.instr_addrs[a[2] % len(self.instr_addrs)]
             if addr == self.prog.end:
                 return False
             cb = a[3] % 3
